@@ -3,6 +3,7 @@ package main
 import (
 	"fmt"
 	"sort"
+	"strconv"
 	"strings"
 
 	"github.com/jessevdk/go-flags/simrt"
@@ -139,6 +140,41 @@ func (propC12) Gen(r *Rng, idx int, tier string) *Scenario {
 		p.Boots = append(p.Boots, b)
 	}
 	return sc
+}
+
+// inBase10 rewrites default texts of an option with a base tag into decimal, which
+// is what the harness's own converter reads (integer parts only).
+func inBase10(o *OptSpec, texts []string) []string {
+	if o.Base == 0 {
+		return texts
+	}
+	conv := func(t string) string {
+		if n, err := strconv.ParseInt(t, o.Base, 64); err == nil {
+			return strconv.FormatInt(n, 10)
+		}
+		return t
+	}
+	out := make([]string, len(texts))
+	for i, t := range texts {
+		switch {
+		case isMapKind(o.Kind):
+			parts := strings.SplitN(t, ":", 2)
+			if len(parts) == 2 {
+				if strings.Contains(mapKeyKind(o.Kind), "int") {
+					parts[0] = conv(parts[0])
+				}
+				if strings.Contains(elemKind(o.Kind), "int") {
+					parts[1] = conv(parts[1])
+				}
+				out[i] = parts[0] + ":" + parts[1]
+			} else {
+				out[i] = t
+			}
+		default:
+			out[i] = conv(t)
+		}
+	}
+	return out
 }
 
 func valuesMap(vals []string) map[string]string {
@@ -306,7 +342,7 @@ func (propC12) Judge(sc *Scenario) *Verdict {
 			if len(oi.O.Default) > 0 {
 				// what the default tags denote (harness's own converter), to tell "the default
 				// came back" from any other wrong value
-				if dv, err := modelApply(oi.O.Kind, strs(oi.O.Default)); err == nil {
+				if dv, err := modelApply(oi.O.Kind, inBase10(oi.O, strs(oi.O.Default))); err == nil {
 					attrs["back_is_default"] = fmt.Sprint(dumpV(oi.O.Kind, dv) == back[path])
 				}
 			}
